@@ -103,7 +103,7 @@ pub fn run_c18(tier: &str) -> i32 {
     let thorough = rep.thorough();
     let max_tok = if thorough { 4 } else { 3 };
     rep.set("token_alphabet", json!(TOK.iter().map(|t| show(t)).collect::<Vec<_>>()));
-    rep.set("bounds", json!(format!("all byte strings of <= {max_tok} tokens over 17 hostile tokens x 4 roles x 4 modes; directive arguments from a hostile menu; line lengths 8191/8192/8193/65537; threads 0..16, shells, base directories; production binary on a core of cases x modes x threads x recursive")));
+    rep.set("bounds", json!(format!("all byte strings of <= {max_tok} tokens over 17 hostile tokens x 4 roles x 4 modes; directive arguments from a hostile menu; line lengths 8191/8192/8193/65537; command output of 65536/65537/300000 bytes on stdout / stderr / both (production binary); threads 0..16, shells, base directories; production binary on a core of cases x modes x threads x recursive")));
     rep.assume("special files (devices, FIFOs) as include targets are outside the domain (D1): /dev/zero never ends");
     rep.st(ROLES.len() * MODES.len());
     // phase 1: byte strings in every role and mode
@@ -247,6 +247,18 @@ pub fn run_c18(tier: &str) -> i32 {
             }
         }
         v.push(("plain".to_string(), plain.clone()));
+        // commands whose output exceeds a pipe buffer (64 KiB), on stdout (success), on stderr (failure), on both
+        for n in [65536usize, 65537, 300000] {
+            for (what, cmd) in [
+                ("stdout", format!("head -c {n} /dev/zero | tr '\\0' y")),
+                ("stderr-then-fail", format!("head -c {n} /dev/zero | tr '\\0' y >&2; exit 1")),
+                ("both", format!("head -c {n} /dev/zero | tr '\\0' y; head -c {n} /dev/zero | tr '\\0' z >&2")),
+            ] {
+                let mut t = Tree::new();
+                tfile(&mut t, "s.txt.txtpp", format!("top\n-TXTPP#run {cmd}\nEND\n"));
+                v.push((format!("command writing {n} bytes to {what}"), t));
+            }
+        }
         v
     };
     let mut cli_jobs = vec![];
